@@ -226,115 +226,197 @@ def _find_func(tree, cls, name):
     raise TranslateError(f"{cls}.{name} not found")
 
 
-def gen_consts(src):
+def gen_consts(src, previous=""):
+    """One section per constant (or group of constants).  A section whose source shape is not recognised keeps the definitions of
+    the previously generated file (`previous`) and is reported in the returned status: the tie of that constant to the source is
+    then the behavioural correspondence alone, not the regeneration."""
     poly = ast.parse(open(os.path.join(src, "pacti/terms/polyhedra/polyhedra.py")).read())
     data = ast.parse(open(os.path.join(src, "pacti/terms/polyhedra/syntax/data.py")).read())
-    out = ["/- GENERATED by tools/py2lean.py — numeric facts read off the source. Do not edit. -/", "", "namespace Gen", ""]
-
-    # 1. isolate_variable: sign of the constant  `constant=±self.constant / self.get_coefficient(var_to_isolate)`
-    f = _find_func(poly, "PolyhedralTerm", "isolate_variable")
-    ret = [s for s in f.body if isinstance(s, ast.Return)][-1]
-    kw = {k.arg: k.value for k in ret.value.keywords}
-    c = kw.get("constant")
-    if not (isinstance(c, ast.BinOp) and isinstance(c.op, ast.Div)):
-        fail(ret, "isolate_variable: constant is not a quotient")
-    num = c.left
-    if isinstance(num, ast.UnaryOp) and isinstance(num.op, ast.USub) and ast.unparse(num.operand) == "self.constant":
-        sgn = "-1"
-    elif ast.unparse(num) == "self.constant":
-        sgn = "1"
-    else:
-        fail(ret, "isolate_variable: unrecognised numerator")
-    if ast.unparse(c.right) != "self.get_coefficient(var_to_isolate)":
-        fail(ret, "isolate_variable: unrecognised denominator")
-    vs = kw.get("variables")
-    if ast.unparse(vs).replace(" ", "") != "{k:-v/self.get_coefficient(var_to_isolate)fork,vinself.variables.items()ifk!=var_to_isolate}":
-        fail(ret, "isolate_variable: unrecognised variables expression")
-    out.append(f"/-- sign given to the constant by `PolyhedralTerm.isolate_variable` (−1 is the correct one) -/\ndef isolateSign : Rat := {sgn}\n")
-
-    # 1b. _tactic_3: the auxiliary variable — the fixed name "_" or a name extended until nothing in use has it
-    f = _find_func(poly, "PolyhedralTermList", "_tactic_3")
-    txt = ast.unparse(f)
-    lit = txt.count("Var('_')")
-    whiles = [n for n in ast.walk(f) if isinstance(n, ast.While)]
-    if lit == 3 and not whiles:
-        fresh = "false"
-    elif lit == 0 and len(whiles) == 1:
-        w = whiles[0]
-        ok = (isinstance(w.test, ast.Compare) and len(w.test.ops) == 1 and isinstance(w.test.ops[0], ast.In)
-              and isinstance(w.test.left, ast.Name) and isinstance(w.test.comparators[0], ast.Name))
-        if not ok:
-            fail(w, "_tactic_3: unrecognised loop")
-        name_var, used_var = w.test.left.id, w.test.comparators[0].id
-        b = w.body
-        ok = (len(b) == 1 and isinstance(b[0], ast.AugAssign) and isinstance(b[0].op, ast.Add) and ast.unparse(b[0].target) == name_var
-              and isinstance(b[0].value, ast.Constant) and isinstance(b[0].value.value, str) and b[0].value.value != "" and not w.orelse)
-        assigns = {ast.unparse(st.targets[0]): st.value for st in f.body if isinstance(st, ast.Assign) and len(st.targets) == 1}
-        used = assigns.get(used_var)
-        ok = ok and used is not None and ast.unparse(used).replace(" ", "") == "{var.nameforvarinlist_union(list_union(term.vars,context.vars),vars_to_elim)}"
-        aux = [k for k, v in assigns.items() if ast.unparse(v) == f"Var({name_var})"]
-        ok = ok and len(aux) == 1
-        if ok:
-            a = aux[0]
-            ok = (f"new_term.variables[{a}] = 1" in txt and f"subst_term_vars = {{{a}: 1.0 / conflict_coeff[conflict_vars[0]]}}" in txt
-                  and f"list_diff(list_union(vars_to_elim, [{a}]), [conflict_vars[0]])" in txt)
-        if not ok:
-            fail(f, "_tactic_3: unrecognised selection of the auxiliary variable")
-        fresh = "true"
-    else:
-        fail(f, "_tactic_3: unrecognised use of the auxiliary variable")
-    out.append("/-- does `_tactic_3` pick an auxiliary variable whose name is used nowhere in the term, the context and the variables to "
-               f"eliminate?  (`false` = the pinned fixed name `\"_\"`) -/\ndef tactic3Fresh : Bool := {fresh}\n")
-
-    # 2. verify_polytope_containment: the final comparison  `-res["fun"] <= b_temp [+ tol*(1+abs(b_temp))]`
-    f = _find_func(poly, "PolyhedralTermList", "verify_polytope_containment")
-    cmp_nodes = [n for n in ast.walk(f) if isinstance(n, ast.Compare) and ast.unparse(n.left).replace("'", '"') == '-res["fun"]']
-    if len(cmp_nodes) != 1 or not isinstance(cmp_nodes[0].ops[0], ast.LtE):
-        raise TranslateError("verify_polytope_containment: comparison `-res[\"fun\"] <= …` not found exactly once")
-    rhs = ast.unparse(cmp_nodes[0].comparators[0]).replace(" ", "")
-    tol = _parse_tol(rhs, "b_temp")
-    out.append(f"/-- relative tolerance of the final comparison in `verify_polytope_containment`: accepted iff `m ≤ b + tol·(1+|b|)` -/\ndef containTol : Rat := {tol}\n")
-
-    # 3. reduce_polytope comparison
-    f = _find_func(poly, "PolyhedralTermList", "reduce_polytope")
-    cmp_nodes = [n for n in ast.walk(f) if isinstance(n, ast.Compare) and ast.unparse(n.left).replace("'", '"') == '-res["fun"]']
-    if len(cmp_nodes) != 1 or not isinstance(cmp_nodes[0].ops[0], ast.LtE):
-        raise TranslateError("reduce_polytope: comparison not found exactly once")
-    rhs = ast.unparse(cmp_nodes[0].comparators[0]).replace(" ", "")
-    tol = _parse_tol(rhs, "b_temp[i]")
-    out.append(f"/-- same for `reduce_polytope` -/\ndef reduceTol : Rat := {tol}\n")
-
-    # 4. _combine_optional_floats(None, None)
-    f = _find_func(data, None, "_combine_optional_floats")
-    src_txt = ast.unparse(f).replace(" ", "").replace("\n", ";")
-    base = "if f1 is None:\n    if f2 is None:\n        return {}\n    return f2 + 1\nif f2 is None:\n    return f1 + 1\nreturn f1 + f2"
-    body_txt = "\n".join(ast.unparse(s) for s in f.body if not (isinstance(s, ast.Expr) and isinstance(s.value, ast.Constant)))
-    val = None
-    for cand, lean in (("None", "none"), ("2.0", "some 2"), ("2", "some 2")):
-        if body_txt == base.format(cand):
-            val = lean
-    if val is None:
-        raise TranslateError("_combine_optional_floats: unrecognised body")
-    out.append(f"/-- `_combine_optional_floats(None, None)` (`none` = coefficient 1; the correct value is `some 2`) -/\ndef combineNoneNone : Option Rat := {val}\n")
-
-    # 5. which fields the contract equalities compare (C19)
-    out.extend(gen_eq_consts(src))
-
-    # 6. arithmetic_expr: do the parse actions of infixNotation evaluate the whole left-associative chain? (C09)
     gram = ast.parse(open(os.path.join(src, "pacti/terms/polyhedra/syntax/grammar.py")).read())
-    out.append(f"/-- do the parse actions of `arithmetic_expr` fold a whole chain `a op b op c …` (`false`: only `a op b` is computed, the rest of the chain is ignored; the correct value is `true`) -/\ndef arithFold : Bool := {_arith_fold(gram)}\n")
+    status = {}
+    out = ["/- GENERATED by tools/py2lean.py — numeric facts read off the source. Do not edit. -/", "", "namespace Gen", ""]
+    prev_blocks = _const_blocks(previous)
 
-    # 7. C14, dictionary / file-entry part: which validation tests are present (tools/py2lean_dict.py)
-    from py2lean_dict import gen_dict_consts
+    def _sec_isolateSign():
+        out = []
+        # 1. isolate_variable: sign of the constant  `constant=±self.constant / self.get_coefficient(var_to_isolate)`
+        f = _find_func(poly, "PolyhedralTerm", "isolate_variable")
+        ret = [s for s in f.body if isinstance(s, ast.Return)][-1]
+        kw = {k.arg: k.value for k in ret.value.keywords}
+        c = kw.get("constant")
+        if not (isinstance(c, ast.BinOp) and isinstance(c.op, ast.Div)):
+            fail(ret, "isolate_variable: constant is not a quotient")
+        num = c.left
+        if isinstance(num, ast.UnaryOp) and isinstance(num.op, ast.USub) and ast.unparse(num.operand) == "self.constant":
+            sgn = "-1"
+        elif ast.unparse(num) == "self.constant":
+            sgn = "1"
+        else:
+            fail(ret, "isolate_variable: unrecognised numerator")
+        if ast.unparse(c.right) != "self.get_coefficient(var_to_isolate)":
+            fail(ret, "isolate_variable: unrecognised denominator")
+        vs = kw.get("variables")
+        if ast.unparse(vs).replace(" ", "") != "{k:-v/self.get_coefficient(var_to_isolate)fork,vinself.variables.items()ifk!=var_to_isolate}":
+            fail(ret, "isolate_variable: unrecognised variables expression")
+        out.append(f"/-- sign given to the constant by `PolyhedralTerm.isolate_variable` (−1 is the correct one) -/\ndef isolateSign : Rat := {sgn}\n")
+        return out
 
-    out.append(gen_dict_consts(src, TranslateError))
+    _run_section("isolateSign", _sec_isolateSign, out, status, prev_blocks)
+
+    def _sec_tactic3Fresh():
+        out = []
+        # 1b. _tactic_3: the auxiliary variable — the fixed name "_" or a name extended until nothing in use has it
+        f = _find_func(poly, "PolyhedralTermList", "_tactic_3")
+        txt = ast.unparse(f)
+        lit = txt.count("Var('_')")
+        whiles = [n for n in ast.walk(f) if isinstance(n, ast.While)]
+        if lit == 3 and not whiles:
+            fresh = "false"
+        elif lit == 0 and len(whiles) == 1:
+            w = whiles[0]
+            ok = (isinstance(w.test, ast.Compare) and len(w.test.ops) == 1 and isinstance(w.test.ops[0], ast.In)
+                  and isinstance(w.test.left, ast.Name) and isinstance(w.test.comparators[0], ast.Name))
+            if not ok:
+                fail(w, "_tactic_3: unrecognised loop")
+            name_var, used_var = w.test.left.id, w.test.comparators[0].id
+            b = w.body
+            ok = (len(b) == 1 and isinstance(b[0], ast.AugAssign) and isinstance(b[0].op, ast.Add) and ast.unparse(b[0].target) == name_var
+                  and isinstance(b[0].value, ast.Constant) and isinstance(b[0].value.value, str) and b[0].value.value != "" and not w.orelse)
+            assigns = {ast.unparse(st.targets[0]): st.value for st in f.body if isinstance(st, ast.Assign) and len(st.targets) == 1}
+            used = assigns.get(used_var)
+            ok = ok and used is not None and ast.unparse(used).replace(" ", "") == "{var.nameforvarinlist_union(list_union(term.vars,context.vars),vars_to_elim)}"
+            aux = [k for k, v in assigns.items() if ast.unparse(v) == f"Var({name_var})"]
+            ok = ok and len(aux) == 1
+            if ok:
+                a = aux[0]
+                ok = (f"new_term.variables[{a}] = 1" in txt and f"subst_term_vars = {{{a}: 1.0 / conflict_coeff[conflict_vars[0]]}}" in txt
+                      and f"list_diff(list_union(vars_to_elim, [{a}]), [conflict_vars[0]])" in txt)
+            if not ok:
+                fail(f, "_tactic_3: unrecognised selection of the auxiliary variable")
+            fresh = "true"
+        else:
+            fail(f, "_tactic_3: unrecognised use of the auxiliary variable")
+        out.append("/-- does `_tactic_3` pick an auxiliary variable whose name is used nowhere in the term, the context and the variables to "
+                   f"eliminate?  (`false` = the pinned fixed name `\"_\"`) -/\ndef tactic3Fresh : Bool := {fresh}\n")
+        return out
+
+    _run_section("tactic3Fresh", _sec_tactic3Fresh, out, status, prev_blocks)
+
+    def _sec_containTol():
+        out = []
+        # 2. verify_polytope_containment: the final comparison  `-res["fun"] <= b_temp [+ tol*(1+abs(b_temp))]`
+        f = _find_func(poly, "PolyhedralTermList", "verify_polytope_containment")
+        cmp_nodes = [n for n in ast.walk(f) if isinstance(n, ast.Compare) and ast.unparse(n.left).replace("'", '"') == '-res["fun"]']
+        if len(cmp_nodes) != 1 or not isinstance(cmp_nodes[0].ops[0], ast.LtE):
+            raise TranslateError("verify_polytope_containment: comparison `-res[\"fun\"] <= …` not found exactly once")
+        rhs = ast.unparse(cmp_nodes[0].comparators[0]).replace(" ", "")
+        tol = _parse_tol(rhs, "b_temp")
+        out.append(f"/-- relative tolerance of the final comparison in `verify_polytope_containment`: accepted iff `m ≤ b + tol·(1+|b|)` -/\ndef containTol : Rat := {tol}\n")
+        return out
+
+    _run_section("containTol", _sec_containTol, out, status, prev_blocks)
+
+    def _sec_reduceTol():
+        out = []
+        # 3. reduce_polytope comparison
+        f = _find_func(poly, "PolyhedralTermList", "reduce_polytope")
+        cmp_nodes = [n for n in ast.walk(f) if isinstance(n, ast.Compare) and ast.unparse(n.left).replace("'", '"') == '-res["fun"]']
+        if len(cmp_nodes) != 1 or not isinstance(cmp_nodes[0].ops[0], ast.LtE):
+            raise TranslateError("reduce_polytope: comparison not found exactly once")
+        rhs = ast.unparse(cmp_nodes[0].comparators[0]).replace(" ", "")
+        tol = _parse_tol(rhs, "b_temp[i]")
+        out.append(f"/-- same for `reduce_polytope` -/\ndef reduceTol : Rat := {tol}\n")
+        return out
+
+    _run_section("reduceTol", _sec_reduceTol, out, status, prev_blocks)
+
+    def _sec_combineNoneNone():
+        out = []
+        # 4. _combine_optional_floats(None, None)
+        f = _find_func(data, None, "_combine_optional_floats")
+        src_txt = ast.unparse(f).replace(" ", "").replace("\n", ";")
+        base = "if f1 is None:\n    if f2 is None:\n        return {}\n    return f2 + 1\nif f2 is None:\n    return f1 + 1\nreturn f1 + f2"
+        body_txt = "\n".join(ast.unparse(s) for s in f.body if not (isinstance(s, ast.Expr) and isinstance(s.value, ast.Constant)))
+        val = None
+        for cand, lean in (("None", "none"), ("2.0", "some 2"), ("2", "some 2")):
+            if body_txt == base.format(cand):
+                val = lean
+        if val is None:
+            raise TranslateError("_combine_optional_floats: unrecognised body")
+        out.append(f"/-- `_combine_optional_floats(None, None)` (`none` = coefficient 1; the correct value is `some 2`) -/\ndef combineNoneNone : Option Rat := {val}\n")
+        return out
+
+    _run_section("combineNoneNone", _sec_combineNoneNone, out, status, prev_blocks)
+
+    def _sec_eq():
+        out = []
+        # 5. which fields the contract equalities compare (C19)
+        out.extend(gen_eq_consts(src))
+        return out
+
+    _run_section("eq", _sec_eq, out, status, prev_blocks)
+
+    def _sec_arithFold():
+        out = []
+        # 6. arithmetic_expr: do the parse actions of infixNotation evaluate the whole left-associative chain? (C09)
+        gram = ast.parse(open(os.path.join(src, "pacti/terms/polyhedra/syntax/grammar.py")).read())
+        out.append(f"/-- do the parse actions of `arithmetic_expr` fold a whole chain `a op b op c …` (`false`: only `a op b` is computed, the rest of the chain is ignored; the correct value is `true`) -/\ndef arithFold : Bool := {_arith_fold(gram)}\n")
+        return out
+
+    _run_section("arithFold", _sec_arithFold, out, status, prev_blocks)
+
+    def _sec_dict():
+        out = []
+        # 7. C14, dictionary / file-entry part: which validation tests are present (tools/py2lean_dict.py)
+        from py2lean_dict import gen_dict_consts
+
+        out.append(gen_dict_consts(src, TranslateError))
+        return out
+
+    _run_section("dict", _sec_dict, out, status, prev_blocks)
 
     out.append("end Gen")
-    return "\n".join(out) + "\n"
+    return "\n".join(out) + "\n", status
 
 
-# ----------------------------------------------------------------------------------------------
-# equality of contracts (C19): which fields does `__eq__` compare?
+SECTION_DEFS = {"isolateSign": ["isolateSign"], "tactic3Fresh": ["tactic3Fresh"], "containTol": ["containTol"], "reduceTol": ["reduceTol"],
+                "combineNoneNone": ["combineNoneNone"], "eq": ["eqComparesOutputs", "eqCompoundComparesOutputs", "strConstPlusZero"],
+                "arithFold": ["arithFold"],
+                "dict": ["checkClauseDictTest", "checkClauseRaises", "checkClauseNumTest", "fileChecked", "compoundChecked", "fromDictValidates", "catchZeroDiv"]}
+
+
+def _const_blocks(text):
+    """definition name -> its block (doc comment + def) in a previously generated Consts.lean"""
+    blocks = {}
+    cur = []
+    for line in text.splitlines():
+        if line.startswith("/--") and cur and not any(l.startswith("def ") for l in cur):
+            cur = []
+        if line.startswith("/--"):
+            cur = [line]
+            continue
+        if cur:
+            cur.append(line)
+            if line.startswith("def "):
+                name = line.split()[1]
+                blocks[name] = "\n".join(cur) + "\n"
+                cur = []
+    return blocks
+
+
+def _run_section(name, fn, out, status, prev_blocks):
+    try:
+        got = fn()
+        out.extend(got)
+        for d in SECTION_DEFS[name]:
+            status["Consts." + d] = "regenerated"
+    except TranslateError as e:
+        missing = [d for d in SECTION_DEFS[name] if d not in prev_blocks]
+        if missing:
+            raise TranslateError(f"{e} (and no previously generated definition of {missing} to fall back on)")
+        for d in SECTION_DEFS[name]:
+            out.append(prev_blocks[d])
+            status["Consts." + d] = "kept: " + str(e)[:300]
 
 
 def _eq_compares_outputs(path, cls):
@@ -494,16 +576,37 @@ def write_if_changed(path, text):
     return True
 
 
-def main():
+def _read(path):
     try:
-        outs = {
-            "Lists.lean": gen_lists(os.path.join(SRC, "pacti/utils/lists.py")),
-            "Consts.lean": gen_consts(SRC),
-        }
+        return open(path).read()
+    except OSError:
+        return ""
+
+
+def main():
+    status = {}
+    outs = {}
+    try:
+        try:
+            outs["Lists.lean"] = gen_lists(os.path.join(SRC, "pacti/utils/lists.py"))
+            status["Lists"] = "regenerated"
+        except TranslateError as e:
+            if not _read(os.path.join(GEN, "Lists.lean")):
+                raise
+            status["Lists"] = "kept: " + str(e)[:300]
+        text, st = gen_consts(SRC, _read(os.path.join(GEN, "Consts.lean")))
+        outs["Consts.lean"] = text
+        status.update(st)
         try:
             from py2lean_iface import gen_iface  # type: ignore
 
-            outs["Iface.lean"] = gen_iface(os.path.join(SRC, "pacti/iocontract/iocontract.py"), Ex, fail, TranslateError)
+            try:
+                outs["Iface.lean"] = gen_iface(os.path.join(SRC, "pacti/iocontract/iocontract.py"), Ex, fail, TranslateError)
+                status["Iface"] = "regenerated"
+            except TranslateError as e:
+                if not _read(os.path.join(GEN, "Iface.lean")):
+                    raise
+                status["Iface"] = "kept: " + str(e)[:300]
         except ImportError:
             pass
     except TranslateError as e:
@@ -515,6 +618,13 @@ def main():
     for name, text in outs.items():
         if write_if_changed(os.path.join(GEN, name), text):
             print("py2lean: wrote Gen/" + name)
+    import json
+
+    with open(os.path.join(GEN, "STATUS.json"), "w") as f:
+        json.dump(status, f, indent=1, sort_keys=True)
+    for k, v in sorted(status.items()):
+        if v != "regenerated":
+            print(f"py2lean: {k}: shape not recognised, previously generated definition kept ({v[6:]})")
     return 0
 
 
